@@ -173,7 +173,7 @@ def fam_blockdefs():
             out.append(H([call("{m}='V'", safeMode=0, reset=True), call(d + '\n\n' + p, safeMode=m), call(p, safeMode=0)]))
     # block attributes options, every spelling, against specials in safe modes
     for o in ['-specials', '-Specials', '-SPECIALS', '-spans -specials', '-spans -Specials', '+Skip', '-MACROS', '-spans', '+macros']:
-        for p in ['x <script>alert(1)</script>', '``\n<script>\n``', '  <script>', '> <script>', '- <script>']:
+        for p in ['x <script>alert(1)</script>', '``\n<script>\n``', '  <script>', '> <script>', '- <script>', 'x <b>never closed', 'a &amp; <i>']:
             for m in [0, 1, 2, 3, 9, 11]:
                 out.append(one('.' + o + '\n' + p, m))
     return out
@@ -189,7 +189,7 @@ def fam_attrs():
                '<hr>', '<DIV CLASS="u">x</DIV>', "{m}='v'", '// c', '/*\nc\n*/', '.x\npara']
     out = []
     for a, t in itertools.product(attrs, targets):
-        for m in [0, 1, 4, 8, 15]:
+        for m in [0, 1, 3, 4, 8, 15]:
             out.append(one(a + '\n' + t + '\n\nnext *e*\n\n' + t, m))
         out.append(one("|paragraph| = '<p style=\"margin:0\" class=\"p\">|</p>'\n" + a + '\n' + t, 0))
         out.append(H([call(a + '\n' + t, safeMode=4, reset=True), call('first\n\nsecond', safeMode=0)]))
@@ -197,7 +197,7 @@ def fam_attrs():
 
 
 # ---- L: every inline form inside every other ---------------------------------------------------
-INL = ['w', '*e*', '**s**', '`c`', '_u_', '~~d~~', '<sub>2</sub>', '<!-- c -->', '<br>', '&amp;', '&#160;', 'http://a.b/c', '<http://a.b>',
+INL = ['a <\\` b', '&\\`', 'std::cout', 'w', '*e*', '**s**', '`c`', '_u_', '~~d~~', '<sub>2</sub>', '<!-- c -->', '<br>', '&amp;', '&#160;', 'http://a.b/c', '<http://a.b>',
        '<http://a.b|cap>', '[l](u)', '^[l](u)', '![a](i.png)', '<image:i.png>', '<image:i.png|a>', '<j@k.lm>', '<j@k.lm|J>', '<<#a>>',
        '\\*x*', '\\<b>', 'x_y_z', '...', '+', ' \\', '"q"', "'", '{m}']
 WRAP = ['[%s](water.html)', '^[%s](w.html)', '<http://a.b|%s>', '<j@k.lm|%s>', '![%s](i.png)', '<image:i.png|%s>', '*%s*', '**%s**', '`%s`',
